@@ -5,16 +5,15 @@ import ExoVerif.Props.C15
 
 Stated for the executable model `ExoVerif.Distr` (Model/Distribution.lean), which mirrors
 x/feedistribution/keeper/allocation.go + hooks.go and x/exomint/keeper/impl_epochs_hooks.go as they
-are, composed with the epoch clock of C15. The model is replayed against the real application
-(`./check C17`: every block's supply, module balances and every booked claim, line by line).
+are (after the repairs of F-17a and F-17b), composed with the epoch clock of C15. The model is
+replayed against the real application (`./check C17`: every block's supply, module balances and
+every booked claim, line by line).
 
-The unchanged code does NOT satisfy the property's central clause ("the booked claims add up to
-exactly the amount moved … and never exceed the distribution account's balance"):
-`AllocateTokensToStakers` books the stakers' rewards AND adds the whole `rewardToAllStakers` to the
-community pool (finding F-17a), and the per-occurrence staker loop can overdraw `remaining`, which
-panics inside BeginBlock (finding F-17b). The full statements are kept as `C17_full`,
-`C17_solvency_full`, `C17_no_halt_full` with machine-checked counter-examples; what does hold is
-proved as `…_partial`, and the full statement is proved for the one-line repair (`…_fixed`).
+History: the unrepaired code booked the stakers' rewards AND the whole `rewardToAllStakers` to the
+community pool (F-17a) and paid every visit of a staker with the power of its last visit, which
+could overdraw `remaining` and panic in BeginBlock (F-17b). The pre-fix shape is kept in the model
+(`allocStakersPre`) and shown to violate the property (`C17_regression_…`), so that the statements
+below are known to discriminate; the harness keeps both directed histories as regressions.
 -/
 namespace ExoVerif.Distr
 open ExoVerif ExoVerif.KV ExoVerif.Epochs
@@ -34,56 +33,13 @@ theorem C17_allocate_moves_all_fees (s : St) (total tax : Int) (vals : List ValI
     · cases h
     · simp only [Option.some.injEq] at h; subst h; exact ⟨rfl, rfl, rfl, rfl⟩
 
-/-- Community pool + commissions grow by exactly the amount moved (in 10^-18 units): every
-truncation remainder of the validator loop ends in the community pool. -/
-theorem C17_community_commission_eq_moved (s : St) (total tax : Int) (vals : List ValIn) (s' : St)
+/-- The booked claims (community pool + commissions + staker rewards) grow by exactly the amount
+moved, for every input: every truncation remainder of the validator loop and of the staker loops
+ends in the community pool. -/
+theorem C17_claims_sum_eq_moved (s : St) (total tax : Int) (vals : List ValIn) (s' : St)
     (h : allocateTokens s total tax vals = some s') :
-    nonStaker s'.pool = nonStaker s.pool + s.fc * PREC := by
-  unfold allocateTokens allocateTokensWith at h
-  simp only [] at h
-  split at h
-  · simp only [Option.some.injEq] at h; subst h; simp only [nonStaker]; omega
-  · split at h
-    · cases h
-    · rename_i p rem heq
-      simp only [Option.some.injEq] at h; subst h
-      obtain ⟨e1, _, _⟩ := valLoop_spec _ _ _ _ _ _ _ heq
-      simp only [nonStaker] at e1 ⊢
-      omega
-
-/-- What the code really books: the claims grow by the amount moved PLUS everything credited to
-stakers (F-17a, exact size of the excess). -/
-theorem C17_claims_sum_eq_moved_partial (s : St) (total tax : Int) (vals : List ValIn) (s' : St)
-    (h : allocateTokens s total tax vals = some s') :
-    claims s'.pool = claims s.pool + s.fc * PREC + (bookSum s'.pool.rewards - bookSum s.pool.rewards) := by
-  have e := C17_community_commission_eq_moved s total tax vals s' h
-  simp only [nonStaker] at e
-  simp only [claims]; omega
-
-/-- the property's central clause, as stated -/
-def C17_full : Prop :=
-  ∀ (s : St) (total tax : Int) (vals : List ValIn) (s' : St),
-    allocateTokens s total tax vals = some s' → claims s'.pool = claims s.pool + s.fc * PREC
-
-private def emptyPool : Pool := { community := 0, commission := [], rewards := [], outstanding := [] }
-/-- 1000 base units of fees, one validator (power 1 of 1, no commission, no tax), one staker -/
-private def w17a : St := { supply := 5000, fc := 1000, mint := 0, distr := 0, pool := emptyPool }
-private def v17a : ValIn := { op := "v", power := 1, rate := 0, found := true, stakers := [("s", PREC)] }
-
-/-- F-17a: 1000 units moved, 2000 units of claims booked (1000 to the staker, 1000 to the
-community pool). -/
-theorem C17_full_fails : ¬ C17_full := by
-  intro h
-  have := h w17a 1 0 [v17a] _ rfl
-  revert this
-  decide
-
-/-- With the one-line repair (`feePool.CommunityPool.Add(remaining...)`) the central clause holds
-for every input: booked claims = amount moved, truncation dust in the community pool. -/
-theorem C17_claims_sum_eq_moved_fixed (s : St) (total tax : Int) (vals : List ValIn) (s' : St)
-    (h : allocateTokensFixed s total tax vals = some s') :
     claims s'.pool = claims s.pool + s.fc * PREC := by
-  unfold allocateTokensFixed allocateTokensWith at h
+  unfold allocateTokens allocateTokensWith at h
   simp only [] at h
   split at h
   · simp only [Option.some.injEq] at h; subst h; simp only [claims]; omega
@@ -91,7 +47,7 @@ theorem C17_claims_sum_eq_moved_fixed (s : St) (total tax : Int) (vals : List Va
     · cases h
     · rename_i p rem heq
       simp only [Option.some.injEq] at h; subst h
-      have e1 := valLoopFixed_spec _ _ _ _ _ _ _ heq
+      obtain ⟨e1, _, _⟩ := valLoop_spec _ _ _ _ _ _ _ heq
       simp only [claims] at e1 ⊢
       omega
 
@@ -104,62 +60,30 @@ theorem C17_zero_power_all_to_community (s : St) (tax : Int) (vals : List ValIn)
 
 /-! ## each validator's portion -/
 
-/-- One validator step books exactly `valReward` as that validator's portion (outstanding
-rewards), of which `round(portion × rate)` is commission; commission + staker part = portion. -/
+/-- One validator step books exactly its portion: the outstanding rewards grow by the portion,
+`round(portion × rate)` of it is commission, commission + staker part = portion, and the claims
+(commission + staker rewards + dust to the community pool) grow by exactly the portion. -/
 theorem C17_commission_split (p : Pool) (v : ValIn) (tokens : Int) (p' : Pool)
     (h : allocValidator p v tokens = some p') :
     getD p'.outstanding v.op 0 = getD p.outstanding v.op 0 + tokens ∧
     getD p'.commission v.op 0 = getD p.commission v.op 0 + (Dec.mul ⟨tokens⟩ ⟨v.rate⟩).raw ∧
     (Dec.mul ⟨tokens⟩ ⟨v.rate⟩).raw + (tokens - (Dec.mul ⟨tokens⟩ ⟨v.rate⟩).raw) = tokens ∧
-    nonStaker p' = nonStaker p + tokens := by
-  obtain ⟨e1, _, e3, e4, _⟩ := allocValidator_spec p v tokens p' h
+    claims p' = claims p + tokens := by
+  obtain ⟨e1, _, e3, e4⟩ := allocValidator_spec p v tokens p' h
   exact ⟨e3, e4, by omega, e1⟩
 
-private theorem floor_chain (P fm power total : Int) (hP : 0 < P) (hfm : 0 ≤ fm) (_hp : 0 ≤ power) (ht : 0 < total) :
-    (fm * ((power * P * (P * P)) / (total * P) / P)) / P * total ≤ fm * power := by
-  have hB : 0 < total * P := Int.mul_pos ht hP
-  have hx := Int.ediv_mul_le (power * P * (P * P)) (Int.ne_of_gt hB)
-  have hq := Int.ediv_mul_le ((power * P * (P * P)) / (total * P)) (Int.ne_of_gt hP)
-  have hr := Int.ediv_mul_le (fm * ((power * P * (P * P)) / (total * P) / P)) (Int.ne_of_gt hP)
-  generalize (power * P * (P * P)) / (total * P) = x at *
-  generalize x / P = q at *
-  generalize (fm * q) / P = r at *
-  -- q*total ≤ power*P
-  have h1 : q * total ≤ power * P := by
-    have : q * P * (total * P) ≤ power * P * (P * P) :=
-      Int.le_trans (Int.mul_le_mul_of_nonneg_right hq (Int.le_of_lt hB)) hx
-    have h2 : (q * total) * (P * P) ≤ (power * P) * (P * P) := by
-      have e1 : q * P * (total * P) = (q * total) * (P * P) := by
-        simp only [Int.mul_assoc, Int.mul_comm, Int.mul_left_comm]
-      rw [e1] at this; exact this
-    exact Int.le_of_mul_le_mul_right h2 (Int.mul_pos hP hP)
-  have h3 : r * total * P ≤ fm * power * P := by
-    have a : r * P * total ≤ fm * q * total := Int.mul_le_mul_of_nonneg_right hr (Int.le_of_lt ht)
-    have b : fm * (q * total) ≤ fm * (power * P) := Int.mul_le_mul_of_nonneg_left h1 hfm
-    have e1 : r * total * P = r * P * total := by simp only [Int.mul_assoc, Int.mul_comm, Int.mul_left_comm]
-    have e2 : fm * q * total = fm * (q * total) := by simp only [Int.mul_assoc]
-    have e3 : fm * power * P = fm * (power * P) := by simp only [Int.mul_assoc]
-    rw [e1, e3]; rw [e2] at a; exact Int.le_trans a b
-  exact Int.le_of_mul_le_mul_right h3 hP
+/-- the commission never exceeds the portion for a rate in [0,1] -/
+theorem C17_commission_le_portion (tokens rate : Int) (ht : 0 ≤ tokens) (hr0 : 0 ≤ rate) (hr1 : rate ≤ PREC) :
+    (Dec.mul ⟨tokens⟩ ⟨rate⟩).raw ≤ tokens := commission_le tokens rate ht hr0 hr1
 
-/-- Each validator's portion is its power-proportional share of the fee multiplier, rounded
-down: portion × totalPower ≤ feeMultiplier × power (it never takes more than its share), and it
-is non-negative. -/
+/-- Each validator's portion is its power-proportional share of the fee multiplier within
+truncation: non-negative, never more than the exact share (portion × total ≤ fm × power), and
+short of it by less than one raw unit (10^-18 of a base unit) plus fm × 10^-18:
+fm × power × 10^18 < (portion × 10^18 + 10^18 + fm) × total. -/
 theorem C17_validator_share_proportional (fm total power : Int) (hfm : 0 ≤ fm) (hp : 0 ≤ power) (ht : 0 < total) :
-    0 ≤ valReward fm total power ∧ valReward fm total power * total ≤ fm * power := by
-  have hP := PREC_pos
-  have hA : 0 ≤ power * PREC * (PREC * PREC) :=
-    Int.mul_nonneg (Int.mul_nonneg hp (Int.le_of_lt hP)) (Int.le_of_lt (Int.mul_pos hP hP))
-  have hB : 0 < total * PREC := Int.mul_pos ht hP
-  have hx : 0 ≤ (power * PREC * (PREC * PREC)) / (total * PREC) := Int.ediv_nonneg hA (Int.le_of_lt hB)
-  have hq : 0 ≤ (power * PREC * (PREC * PREC)) / (total * PREC) / PREC := Int.ediv_nonneg hx (Int.le_of_lt hP)
-  have hfq : 0 ≤ fm * ((power * PREC * (PREC * PREC)) / (total * PREC) / PREC) := Int.mul_nonneg hfm hq
-  have e : valReward fm total power =
-      (fm * ((power * PREC * (PREC * PREC)) / (total * PREC) / PREC)) / PREC := by
-    simp only [valReward, Dec.mulTruncate, Dec.quoTruncate, Dec.ofInt, Dec.chopTrunc]
-    rw [Int.tdiv_eq_ediv_of_nonneg hA, Int.tdiv_eq_ediv_of_nonneg hx, Int.tdiv_eq_ediv_of_nonneg hfq]
-  rw [e]
-  exact ⟨Int.ediv_nonneg hfq (Int.le_of_lt hP), floor_chain PREC fm power total hP hfm hp ht⟩
+    0 ≤ valReward fm total power ∧ valReward fm total power * total ≤ fm * power ∧
+    fm * power * PREC < (valReward fm total power * PREC + PREC + fm) * total :=
+  valReward_bounds fm total power hfm hp ht
 
 /-- Over the whole validator loop the outstanding book (the validators' portions) grows by
 exactly what left `remaining`; what is left of `remaining` is what the community pool gets. -/
@@ -170,56 +94,45 @@ theorem C17_portions_plus_remainder (fm total : Int) (vals : List ValIn) (p : Po
 
 /-! ## solvency over epochs -/
 
-/-- the property's solvency clause: booked claims never exceed the distribution account -/
-def C17_solvency_full : Prop :=
-  ∀ (s : St) (total tax : Int) (vals : List ValIn) (s' : St),
-    claims s.pool ≤ s.distr * PREC → allocateTokens s total tax vals = some s' →
-    claims s'.pool ≤ s'.distr * PREC
+/-- the gap between the distribution account and the booked claims (in 10^-18 units) -/
+def slack (s : St) : Int := s.distr * PREC - claims s.pool
 
-theorem C17_solvency_full_fails : ¬ C17_solvency_full := by
-  intro h
-  have := h w17a 1 0 [v17a] _ (by decide) rfl
-  revert this
-  decide
-
-/-- one epoch-end notification keeps `community + commissions = balance × 10^18` -/
-theorem C17_epoch_end_keeps_backing (c : Cfg) (s : St) (id : String) (total : Int) (vals : List ValIn) (s' : St)
-    (hinv : nonStaker s.pool = s.distr * PREC) (h : onEpochEnd c s id total vals = some s') :
-    nonStaker s'.pool = s'.distr * PREC := by
+/-- one epoch-end notification leaves the gap unchanged -/
+theorem C17_epoch_end_keeps_slack (c : Cfg) (s : St) (id : String) (total : Int) (vals : List ValIn) (s' : St)
+    (h : onEpochEnd c s id total vals = some s') : slack s' = slack s := by
   unfold onEpochEnd at h
   simp only [] at h
   split at h
   · cases h
   · rename_i s1 heq
     simp only [Option.some.injEq] at h
-    have h1 : nonStaker s1.pool = s1.distr * PREC := by
+    have h1 : slack s1 = slack s := by
       split at heq
-      · have e := C17_community_commission_eq_moved _ _ _ _ _ heq
+      · have e := C17_claims_sum_eq_moved _ _ _ _ _ heq
         obtain ⟨_, e2, _, _⟩ := C17_allocate_moves_all_fees _ _ _ _ _ heq
-        rw [e, e2, hinv, Int.add_mul]
-      · simp only [Option.some.injEq] at heq; subst heq; exact hinv
+        simp only [slack, e, e2, Int.add_mul]; omega
+      · simp only [Option.some.injEq] at heq; subst heq; rfl
     subst h
     split
     · obtain ⟨e1, e2⟩ := mintHook_pool s1 c.reward
-      rw [e1, e2]; exact h1
+      simp only [slack, e1, e2]; exact h1
     · exact h1
 
-theorem C17_events_keep_backing (c : Cfg) (total : Int) (vals : List ValIn) :
-    ∀ (evs : List Ev) (s s' : St), nonStaker s.pool = s.distr * PREC →
-      onEvents c total vals evs s = some s' → nonStaker s'.pool = s'.distr * PREC := by
+theorem C17_events_keep_slack (c : Cfg) (total : Int) (vals : List ValIn) :
+    ∀ (evs : List Ev) (s s' : St), onEvents c total vals evs s = some s' → slack s' = slack s := by
   intro evs
   induction evs with
-  | nil => intro s s' hinv h; simp only [onEvents, Option.some.injEq] at h; subst h; exact hinv
+  | nil => intro s s' h; simp only [onEvents, Option.some.injEq] at h; subst h; rfl
   | cons ev rest ih =>
-    intro s s' hinv h
+    intro s s' h
     cases ev with
-    | epochStart id n => simp only [onEvents] at h; exact ih s s' hinv h
+    | epochStart id n => simp only [onEvents] at h; exact ih s s' h
     | epochEnd id n =>
       simp only [onEvents] at h
       split at h
       · cases h
       · rename_i s1 heq
-        exact ih s1 s' (C17_epoch_end_keeps_backing c s id total vals s1 hinv heq) h
+        rw [ih s1 s' h, C17_epoch_end_keeps_slack c s id total vals s1 heq]
 
 /-- a history: before each block some fee income `f` reaches the fee collector -/
 def runBlocks (c : Cfg) : List EpochInfo → St → List (Int × BlockIn) → Option St
@@ -229,26 +142,33 @@ def runBlocks (c : Cfg) : List EpochInfo → St → List (Int × BlockIn) → Op
     | (es', _, some s') => runBlocks c es' s' rest
     | (_, _, none) => none
 
-/-- Solvency as far as it holds: over every history (any fee income, block times, validator
-sets, powers, rates, stakers) the community pool and the commissions together are backed exactly
-by the distribution account. The staker rewards are NOT backed (F-17a). -/
-theorem C17_solvency_partial (c : Cfg) :
+/-- Solvency over every history (any fee income, block times, validator sets, powers, rates,
+stakers, epoch identifiers): the gap between the distribution account's balance and the booked
+claims never changes — in particular claims that do not exceed the balance never will, and from
+genesis (no claims, empty account) the claims are backed exactly. -/
+theorem C17_solvency (c : Cfg) :
     ∀ (bs : List (Int × BlockIn)) (es : List EpochInfo) (s s' : St),
-      nonStaker s.pool = s.distr * PREC → runBlocks c es s bs = some s' →
-      nonStaker s'.pool = s'.distr * PREC := by
+      runBlocks c es s bs = some s' → slack s' = slack s := by
   intro bs
   induction bs with
-  | nil => intro es s s' hinv h; simp only [runBlocks, Option.some.injEq] at h; subst h; exact hinv
+  | nil => intro es s s' h; simp only [runBlocks, Option.some.injEq] at h; subst h; rfl
   | cons fb rest ih =>
-    intro es s s' hinv h
+    intro es s s' h
     obtain ⟨f, b⟩ := fb
     simp only [runBlocks, block] at h
     split at h
     · rename_i es' evs s1 heq
       simp only [Prod.mk.injEq] at heq
-      obtain ⟨h1, _, h3⟩ := heq
-      exact ih es' s1 s' (C17_events_keep_backing c b.total b.vals _ { s with fc := s.fc + f } s1 hinv h3) h
+      obtain ⟨_, _, h3⟩ := heq
+      rw [ih es' s1 s' h, C17_events_keep_slack c b.total b.vals _ { s with fc := s.fc + f } s1 h3]
+      rfl
     · cases h
+
+theorem C17_claims_le_balance (c : Cfg) (bs : List (Int × BlockIn)) (es : List EpochInfo) (s s' : St)
+    (h0 : claims s.pool ≤ s.distr * PREC) (h : runBlocks c es s bs = some s') :
+    claims s'.pool ≤ s'.distr * PREC := by
+  have := C17_solvency c bs es s s' h
+  simp only [slack] at this; omega
 
 /-! ## supply: only the mint, exactly once per mint-epoch end -/
 
@@ -306,34 +226,76 @@ theorem C17_mint_once_per_epoch (e : EpochInfo) (ts : List (Int × Int)) (hs : e
 
 /-! ## no halt -/
 
-/-- BeginBlock never panics in AllocateTokens for sane inputs (powers adding up to the total,
-rates and tax in [0,1], non-negative staker powers) — as the property's liveness needs -/
-def C17_no_halt_full : Prop :=
-  ∀ (s : St) (tax : Int) (v : ValIn), 0 ≤ s.fc → 0 ≤ tax → tax ≤ PREC → 0 ≤ v.rate → v.rate ≤ PREC →
-    0 < v.power → (∀ o ∈ v.stakers, 0 ≤ o.2) →
-    allocateTokens s v.power tax [v] ≠ none
+/-- AllocateTokens never panics (so BeginBlock does not halt in it) for every fee amount, every
+community tax and commission rate in [0,1], every set of validators whose powers are
+non-negative and add up to at most the total, and every list of staker visits with non-negative
+powers — in particular for stakers visited several times with different powers (F-17b). -/
+theorem C17_no_halt (s : St) (total tax : Int) (vals : List ValIn)
+    (hfc : 0 ≤ s.fc) (ht0 : 0 ≤ total) (htax0 : 0 ≤ tax) (htax1 : tax ≤ PREC)
+    (hv : ∀ v ∈ vals, SaneVal v) (hsum : foundPower vals ≤ total) :
+    (allocateTokens s total tax vals).isSome = true := by
+  unfold allocateTokens allocateTokensWith
+  simp only []
+  split
+  · rfl
+  · rename_i hne
+    have ht : 0 < total := by
+      have : total ≠ 0 := by simpa using hne
+      omega
+    have hfd : 0 ≤ s.fc * PREC := Int.mul_nonneg hfc (Int.le_of_lt PREC_pos)
+    obtain ⟨f0, f1⟩ := feeMultiplier_bounds (s.fc * PREC) tax hfd htax0 htax1
+    have hinv : feeMultiplier (s.fc * PREC) tax * foundPower vals ≤ s.fc * PREC * total := by
+      have a : feeMultiplier (s.fc * PREC) tax * foundPower vals ≤ feeMultiplier (s.fc * PREC) tax * total :=
+        Int.mul_le_mul_of_nonneg_left hsum f0
+      have b : feeMultiplier (s.fc * PREC) tax * total ≤ s.fc * PREC * total :=
+        Int.mul_le_mul_of_nonneg_right f1 (Int.le_of_lt ht)
+      exact Int.le_trans a b
+    have h := valLoop_some _ total f0 ht vals
+      ({ s with fc := 0, distr := s.distr + s.fc } : St).pool (s.fc * PREC) hv hinv
+    simp only [valLoop] at h
+    cases hh : valLoopWith allocStakers (feeMultiplier (s.fc * PREC) tax) total vals s.pool (s.fc * PREC) with
+    | none => rw [hh] at h; simp at h
+    | some x => rfl
 
-/-- F-17b: a staker listed three times (asset a under AVS A; assets a, b under AVS B) with power
-1 for the first occurrence and 3 for the later ones is paid 3 × 3/7 of the reward. -/
+/-! ## regression: the code before the repairs violates these statements -/
+
+private def emptyPool : Pool := { community := 0, commission := [], rewards := [], outstanding := [] }
+/-- 1000 base units of fees, one validator (power 1 of 1, no commission, no tax), one staker -/
+private def w17a : St := { supply := 5000, fc := 1000, mint := 0, distr := 0, pool := emptyPool }
+private def v17a : ValIn := { op := "v", power := 1, rate := 0, found := true, stakers := [("s", PREC)] }
+/-- a staker visited three times (asset a under AVS A; assets a, b under AVS B): power 1, 3, 3 -/
 private def v17b : ValIn :=
   { op := "v", power := 1, rate := 0, found := true,
     stakers := [("s", 1 * PREC), ("s", 3 * PREC), ("s", 3 * PREC)] }
 
-theorem C17_no_halt_full_fails : ¬ C17_no_halt_full := by
-  intro h
-  have := h w17a 0 v17b (by decide) (by decide) (by decide) (by decide) (by decide) (by decide) (by decide)
-  revert this
-  decide
+/-- F-17a before the repair: 1000 units moved, 2000 units of claims booked -/
+theorem C17_regression_prefix_overbooks :
+    ∃ s', allocateTokensPre w17a 1 0 [v17a] = some s' ∧
+      claims s'.pool = claims w17a.pool + w17a.fc * PREC + 1000 * PREC ∧ ¬ claims s'.pool ≤ s'.distr * PREC :=
+  ⟨_, rfl, by decide, by decide⟩
+
+/-- F-17b before the repair: paid 3 × 3/7 of the reward, `remaining.Sub` panics -/
+theorem C17_regression_prefix_halts : allocateTokensPre w17a 1 0 [v17b] = none := by decide
+
+/-- the repaired code on the same inputs: exact booking, no panic -/
+example : ∃ s', allocateTokens w17a 1 0 [v17a] = some s' ∧ claims s'.pool = 1000 * PREC ∧ s'.distr = 1000 :=
+  ⟨_, rfl, by decide, by decide⟩
+example : (allocateTokens w17a 1 0 [v17b]).isSome = true := by decide
 
 /-! ## non-vacuity -/
 
--- a two-validator epoch with commission and tax: the loop succeeds and books as proved
+-- a two-validator epoch with commission and tax meets the hypotheses of C17_no_halt
 example : (allocateTokens { w17a with fc := 1000 } 201 (PREC / 50)
     [{ op := "a", power := 100, rate := 0, found := true, stakers := [("sa", 100 * PREC)] },
-     { op := "b", power := 101, rate := PREC / 20, found := true, stakers := [("sb", 101 * PREC)] }]).isSome = true := by
-  decide
-example : nonStaker w17a.pool = w17a.distr * PREC := by decide
-example : 0 ≤ valReward (980 * PREC) 201 100 ∧ valReward (980 * PREC) 201 100 * 201 ≤ 980 * PREC * 100 :=
+     { op := "b", power := 101, rate := PREC / 20, found := true, stakers := [("sb", 101 * PREC)] }]).isSome = true :=
+  C17_no_halt _ _ _ _ (by decide) (by decide) (by decide) (by decide)
+    (by intro v hv; simp only [List.mem_cons, List.mem_nil_iff, or_false] at hv
+        rcases hv with hv | hv <;> subst hv <;> refine ⟨by decide, by decide, by decide, ?_⟩ <;>
+          intro o ho <;> simp only [List.mem_cons, List.mem_nil_iff, or_false] at ho <;> subst ho <;> decide)
+    (by decide)
+example : slack w17a = 0 := by decide
+example : 0 ≤ valReward (980 * PREC) 201 100 ∧ valReward (980 * PREC) 201 100 * 201 ≤ 980 * PREC * 100 ∧
+    980 * PREC * 100 * PREC < (valReward (980 * PREC) 201 100 * PREC + PREC + 980 * PREC) * 201 :=
   C17_validator_share_proportional _ _ _ (by decide) (by decide) (by decide)
 
 end ExoVerif.Distr
